@@ -84,6 +84,7 @@ type config struct {
 	workers   int
 	selftest  bool
 	scale     float64
+	regress   string
 }
 
 func Main(args []string) int {
@@ -100,6 +101,7 @@ func Main(args []string) int {
 	fs.StringVar(&variants, "variants", "", "label=dir=knobs;...")
 	fs.IntVar(&cfg.workers, "workers", 16, "worker processes")
 	fs.Float64Var(&cfg.scale, "scale", 1, "multiplier for run counts")
+	fs.StringVar(&cfg.regress, "regressions", "", "directory of replay files of repaired defects, re-executed by every check")
 	replay := fs.String("replay", "", "replay a plan file instead of exploring")
 	fs.Parse(args)
 	for _, v := range strings.Split(variants, ";") {
@@ -481,6 +483,12 @@ func explore(cfg *config) int {
 		extra["determinism_selftest"] = st
 	}
 
+	// regression replays of repaired defects
+	rf, rinf, rst := runRegressions(cfg)
+	extraFailures = append(extraFailures, rf...)
+	infra = append(infra, rinf...)
+	extra["regression_replays"] = rst
+
 	// failures → classes → minimise → report
 	var all []failure
 	for _, jr := range results {
@@ -772,4 +780,44 @@ func replayMain(cfg *config, path string) int {
 		}
 	}
 	return exit
+}
+
+// runRegressions re-executes the minimised replay files of defects that were
+// repaired (see known_findings.txt, "fixed:" lines): a fixed entry suppresses
+// nothing, so if the defect ever returns it is reported like any violation.
+func runRegressions(cfg *config) ([]failure, []string, map[string]interface{}) {
+	st := map[string]interface{}{}
+	if cfg.regress == "" {
+		return nil, nil, st
+	}
+	files, _ := filepath.Glob(filepath.Join(cfg.regress, cfg.prop+"-*.json"))
+	sort.Strings(files)
+	var fails []failure
+	var infra []string
+	n := 0
+	for _, f := range files {
+		p, err := plan.Load(f)
+		if err != nil {
+			infra = append(infra, "regression file "+f+": "+err.Error())
+			continue
+		}
+		v := cfg.variants[0]
+		viols, _, inf := execPlan(cfg, v, p.Race, p, "regr")
+		if inf != "" {
+			infra = append(infra, "regression "+f+": "+inf)
+			continue
+		}
+		n++
+		job := &Job{Name: "regression", Variant: v, Race: p.Race, WL: p.Workload, Mode: p.Mode, Seed: p.Seed}
+		for _, vv := range viols {
+			if vv.Property != cfg.prop {
+				continue
+			}
+			vv.Detail = "regression: a repaired defect is back (" + filepath.Base(f) + ")\n" + vv.Detail
+			fails = append(fails, failure{job: job, run: p.Run, viol: vv, replayPath: f})
+		}
+	}
+	st["files"] = n
+	st["failing"] = len(fails)
+	return fails, infra, st
 }
